@@ -38,12 +38,18 @@ struct MInner { n0: NoiseMarketAgent, n1: NoiseMarketAgent }
 #[derive(MarketAgentSet)]
 struct MNested { inner: MInner, m1: MomentumMarketAgent }
 
+// price-distribution width: the configuration's "sigma" when given (the documentation's heavy-tailed 10.0 among them), else per member
+static SIGMA: std::sync::atomic::AtomicU32 = std::sync::atomic::AtomicU32::new(0);
+fn sigma_or(d: f64) -> f64 {
+    let s = SIGMA.load(std::sync::atomic::Ordering::Relaxed);
+    if s == 0 { d } else { s as f64 / 10.0 }
+}
 fn noise(tick: u32, k: u32) -> NoiseAgentParams {
     NoiseAgentParams { tick_size: tick, p_limit: 0.3 + 0.1 * (k % 3) as f32, p_market: 0.1, p_cancel: 0.05 + 0.05 * (k % 2) as f32, trade_vol: 10 + k,
-        price_dist_mu: 0.0, price_dist_sigma: if k % 2 == 0 { 1.0 } else { 3.0 } }
+        price_dist_mu: 0.0, price_dist_sigma: sigma_or(if k % 2 == 0 { 1.0 } else { 3.0 }) }
 }
 fn mom(tick: u32, k: u32) -> MomentumParams {
-    MomentumParams { tick_size: tick, p_cancel: 0.1, trade_vol: 5 + k, decay: 0.5, demand: 4.0, scale: 0.3, order_ratio: 1.0, price_dist_mu: 0.0, price_dist_sigma: 2.0 }
+    MomentumParams { tick_size: tick, p_cancel: 0.1, trade_vol: 5 + k, decay: 0.5, demand: 4.0, scale: 0.3, order_ratio: 1.0, price_dist_mu: 0.0, price_dist_sigma: sigma_or(2.0) }
 }
 
 fn dump_book(f: &mut impl Write, tag: &str, asset: usize, orders: Vec<Value>, trades: Vec<Value>) {
@@ -91,18 +97,21 @@ fn run_one(f: &mut Vec<u8>, ci: usize, c: &Value, shift: u64, progress: bool) {
         let step_size = c["step_size"].as_u64().unwrap();
         let tick = c["tick"].as_u64().unwrap() as u32;
         let comp = c["comp"].as_str().unwrap();
+        // population scale: every member's agent count is multiplied by it (large populations: thousands of instructions per step)
+        let z = c.get("scale").and_then(|x| x.as_u64()).unwrap_or(1) as u32;
+        SIGMA.store((c.get("sigma").and_then(|x| x.as_f64()).unwrap_or(0.0) * 10.0) as u32, std::sync::atomic::Ordering::Relaxed);
         writeln!(f, "{}", json!({"op": "config", "cfg": tag, "comp": comp, "steps": steps, "step_size": step_size, "tick": tick})).unwrap();
         if comp.starts_with('M') {
             let mut env: MarketEnv<2, 10> = MarketEnv::new(0, [tick, tick], step_size, true);
             match comp {
                 "MMixed" => {
-                    let mut a = MMixed { r0: RandomMarketAgents::new(0, 6, (20, 40), (1, 20), tick, 0.5), n1: NoiseMarketAgent::new(1, 100, 5, noise(tick, 1)),
-                        m0: MomentumMarketAgent::new(200, 4, 0, mom(tick, 0)), r1: RandomMarketAgents::new(1, 4, (10, 30), (5, 9), tick, 0.8) };
+                    let mut a = MMixed { r0: RandomMarketAgents::new(0, 6 * z as usize, (20, 40), (1, 20), tick, 0.5), n1: NoiseMarketAgent::new(1, 100000, (5 * z) as u16, noise(tick, 1)),
+                        m0: MomentumMarketAgent::new(200000, (4 * z) as u16, 0, mom(tick, 0)), r1: RandomMarketAgents::new(1, 4 * z as usize, (10, 30), (5, 9), tick, 0.8) };
                     market_sim_runner(&mut env, &mut a, seed, steps, progress);
                 }
                 _ => {
-                    let mut a = MNested { inner: MInner { n0: NoiseMarketAgent::new(0, 0, 6, noise(tick, 0)), n1: NoiseMarketAgent::new(1, 50, 6, noise(tick, 2)) },
-                        m1: MomentumMarketAgent::new(300, 3, 1, mom(tick, 1)) };
+                    let mut a = MNested { inner: MInner { n0: NoiseMarketAgent::new(0, 0, (6 * z) as u16, noise(tick, 0)), n1: NoiseMarketAgent::new(1, 50000, (6 * z) as u16, noise(tick, 2)) },
+                        m1: MomentumMarketAgent::new(300000, (3 * z) as u16, 1, mom(tick, 1)) };
                     market_sim_runner(&mut env, &mut a, seed, steps, progress);
                 }
             }
@@ -121,20 +130,20 @@ fn run_one(f: &mut Vec<u8>, ci: usize, c: &Value, shift: u64, progress: bool) {
             let mut env = Env::new(0, tick, step_size, true);
             match comp {
                 "Mixed" => {
-                    let mut a = Mixed { r: RandomAgents::new(8, (20, 40), (1, 20), tick, 0.6), n: NoiseAgent::new(100, 6, noise(tick, 0)), m: MomentumAgent::new(200, 5, mom(tick, 0)) };
+                    let mut a = Mixed { r: RandomAgents::new(8 * z as usize, (20, 40), (1, 20), tick, 0.6), n: NoiseAgent::new(100000, (6 * z) as u16, noise(tick, 0)), m: MomentumAgent::new(200000, (5 * z) as u16, mom(tick, 0)) };
                     sim_runner(&mut env, &mut a, seed, steps, progress);
                 }
                 "Nested" => {
-                    let mut a = Nested { inner: TwoNoise { n1: NoiseAgent::new(0, 4, noise(tick, 1)), n2: NoiseAgent::new(10, 4, noise(tick, 2)) },
-                        r: RandomAgents::new(5, (15, 25), (2, 6), tick, 0.9), m: MomentumAgent::new(300, 3, mom(tick, 2)) };
+                    let mut a = Nested { inner: TwoNoise { n1: NoiseAgent::new(0, (4 * z) as u16, noise(tick, 1)), n2: NoiseAgent::new(10000, (4 * z) as u16, noise(tick, 2)) },
+                        r: RandomAgents::new(5 * z as usize, (15, 25), (2, 6), tick, 0.9), m: MomentumAgent::new(300000, (3 * z) as u16, mom(tick, 2)) };
                     sim_runner(&mut env, &mut a, seed, steps, progress);
                 }
                 "TwoNoise" => {
-                    let mut a = TwoNoise { n1: NoiseAgent::new(0, 10, noise(tick, 0)), n2: NoiseAgent::new(10, 10, noise(tick, 1)) };
+                    let mut a = TwoNoise { n1: NoiseAgent::new(0, (10 * z) as u16, noise(tick, 0)), n2: NoiseAgent::new(10000, (10 * z) as u16, noise(tick, 1)) };
                     sim_runner(&mut env, &mut a, seed, steps, progress);
                 }
                 _ => {
-                    let mut a = OnlyRandom { r: RandomAgents::new(12, (20, 40), (1, 20), tick, 0.5) };
+                    let mut a = OnlyRandom { r: RandomAgents::new(12 * z as usize, (20, 40), (1, 20), tick, 0.5) };
                     sim_runner(&mut env, &mut a, seed, steps, progress);
                 }
             }
